@@ -194,10 +194,12 @@ func genBulkElem(t *rapid.T, i int) bulkElem {
 			e.Data = `{"postings":[{"source":"world","destination":"a","asset":"USD","amount":1}],"metadata":{"el":"` + e.Marker + `"},"reference":"r` + e.Marker + `"}`
 		}
 	case "ADD_METADATA":
+		// the metadata may be empty or absent: whether the element succeeds is still the ledger's call
+		md := rapid.SampledFrom([]string{`,"metadata":{"el":"` + e.Marker + `"}`, `,"metadata":{"el":"` + e.Marker + `"}`, `,"metadata":{}`, ``, `,"metadata":null`}).Draw(t, "addMeta")
 		if rapid.Bool().Draw(t, "onTx") {
-			e.Data = `{"targetType":"TRANSACTION","targetId":` + e.Marker + `,"metadata":{"el":"` + e.Marker + `"}}`
+			e.Data = `{"targetType":"TRANSACTION","targetId":` + e.Marker + md + `}`
 		} else {
-			e.Data = `{"targetType":"ACCOUNT","targetId":"acc` + e.Marker + `","metadata":{"el":"` + e.Marker + `"}}`
+			e.Data = `{"targetType":"ACCOUNT","targetId":"acc` + e.Marker + `"` + md + `}`
 		}
 	case "REVERT_TRANSACTION":
 		e.Data = `{"id":` + e.Marker + `,"force":` + fmt.Sprint(rapid.Bool().Draw(t, "force")) + `}`
@@ -220,7 +222,11 @@ func callMarker(c httpsim.Call) string {
 			return c.TxID.String()
 		}
 	case "save_meta":
-		return c.Meta["el"]
+		if m := c.Meta["el"]; m != "" {
+			return m
+		}
+		// no marker in the metadata: the target carries it
+		return strings.TrimPrefix(fmt.Sprint(c.TargetID), "acc")
 	case "delete_meta":
 		return strings.TrimPrefix(c.Key, "k")
 	}
